@@ -31,7 +31,7 @@ func init() {
 		},
 		Quick:    150000,
 		Thorough: 3000000,
-		Require:  []string{"server.newConnToKnownPeer", "pool.recyclingOn", "copy.duplicate", "copy.exactlyAtBoundary", "copy.fresh.nearBoundary", "dgram.dup", "app.separateResponse"},
+		Require:  []string{"server.newConnToKnownPeer", "pool.recyclingOn", "copy.duplicate", "copy.exactlyAtBoundary", "copy.fresh.nearBoundary", "dgram.dup", "app.separateResponse", "handler.tookRequestOverAndReleasedIt"},
 		Assume: []string{
 			"a copy arriving exactly 247 s after the first is accepted as either duplicate or fresh (the statement is silent on equality)",
 			"in boundary mode handlers return at once, so 'first copy arrived' and 'reply stored' are the same instant; concurrency mode never probes the boundary",
@@ -84,8 +84,15 @@ func c05Run(e *Env, concurrent bool) {
 	}
 	var w *UWorld
 	// recording handler; behaviour is a function of the path only
+	// the separate-response idiom: a handler that answers later takes the request over (Hijack) and is free to give
+	// it back to the pool whenever it is done with it - here at once, before it returns
+	hijack := t.Chance(1, 3)
 	cfg.Handler = func(rw *responsewriter.ResponseWriter[*udpClient.Conn], r *pool.Message) {
-		if e.Pool.Enabled {
+		takesOver := false
+		if p, err := r.Options().Path(); hijack && err == nil && (p == "/none" || p == "/sep") {
+			takesOver = true
+		}
+		if e.Pool.Enabled && !takesOver {
 			e.Pool.Hold(r, "request inside its handler")
 			snap := Snapshot(r)
 			e.Pool.CheckHandover(snap, "request handed to a handler")
@@ -114,6 +121,11 @@ func c05Run(e *Env, concurrent bool) {
 			_ = rw.SetResponse(codes.Content, message.TextPlain, bytes.NewReader([]byte(fmt.Sprintf("pig-%d-run%d", n, runs))),
 				message.Option{ID: message.MaxAge, Value: []byte{byte(n + 1)}})
 		case "/none", "/sep":
+			if takesOver {
+				r.Hijack()
+				rw.Conn().ReleaseMessage(r)
+				e.Probe("handler.tookRequestOverAndReleasedIt")
+			}
 		}
 	}
 	w = NewUWorld(e, cfg, nil)
